@@ -154,7 +154,13 @@ impl Property for C04 {
         if p.ser.cdata > 0 {
             st.count("surface.documents_with_cdata");
         }
-        let root = parse_docs(&p.bytes)?;
+        // half of the multi-document cases render the tree after every document (a preview per file): the last rendering
+        // must be as well-formed as a single one
+        let observed = tapes.a.first().map(|b| b & 1 == 1).unwrap_or(false);
+        if observed && p.bytes.len() > 1 {
+            st.count("histories_with_a_rendering_after_every_document");
+        }
+        let root = if observed { parse_docs_observed(&p.bytes)? } else { parse_docs(&p.bytes)? };
         let mut opts = if serde_xml_rs { crate::sut::Options::serde_xml_rs() } else { crate::sut::Options::quick_xml_de() };
         if by_name {
             opts.sort = crate::sut::SortBy::XmlName;
@@ -293,7 +299,7 @@ impl Property for C04 {
         true
     }
     fn rule(&self) -> String {
-        "small-scope exhaustive: every document with root r and up to 4 (thorough: 5) elements over the child names a, b, ab, A, type (attribute k, optional text), both presets; every flat element `foo` with up to 4 (thorough: 5) distinct children, up to 2 attributes and optional text over 12 names whose identifiers collide with each other and with the suffixes the identifier map hands out (foo, Foo, FOO, foo_1, foo_2, foo-2, foo_attr, foo_attr_1, text, text_content, type, foo_type), both sort orders; sampled: tape-decoded document sequences over adversarial name pools (keywords in any case, case and separator variants, prefixed and multi-colon names, concatenation sets, String/Option/Vec/Serialize..., identifier-map traps such as text/text_content/foo_1/type_attr, non-ASCII, digits; names may clash after prefix removal; one document in 25 a chain up to depth 60; half of the cases written with the full surface variation: comments whose text contains `/*`, `*/`, `//`, quotes, braces and line breaks, PIs, prolog, DOCTYPE, CDATA with bare ampersands, entity references), both presets and both sort orders. The output is parsed with syn (and the strict line reader, cross-checked) and checked for: only pub structs with pub named fields, unique legal non-keyword struct names not shadowing String/Option/Vec, unique legal non-keyword field names per struct, field types String or a struct of the same output, every non-first struct used by exactly one field and the first by none. Non-trivial = the pool holds names that collide after normalisation, a concatenation clash, or a keyword/std/trap name, and the output has three or more structs; distinct by hash of documents and options.".into()
+        "small-scope exhaustive: every document with root r and up to 4 (thorough: 5) elements over the child names a, b, ab, A, type (attribute k, optional text), both presets; every flat element `foo` with up to 4 (thorough: 5) distinct children, up to 2 attributes and optional text over 12 names whose identifiers collide with each other and with the suffixes the identifier map hands out (foo, Foo, FOO, foo_1, foo_2, foo-2, foo_attr, foo_attr_1, text, text_content, type, foo_type), both sort orders; sampled: tape-decoded document sequences over adversarial name pools (keywords in any case, case and separator variants, prefixed and multi-colon names, concatenation sets, String/Option/Vec/Serialize..., identifier-map traps such as text/text_content/foo_1/type_attr, non-ASCII, digits; names may clash after prefix removal; one document in 25 a chain up to depth 60; half of the cases written with the full surface variation: comments whose text contains `/*`, `*/`, `//`, quotes, braces and line breaks, PIs, prolog, DOCTYPE, CDATA with bare ampersands, entity references), in half of the cases the tree is rendered after every document and only the last rendering is judged; both presets and both sort orders. The output is parsed with syn (and the strict line reader, cross-checked) and checked for: only pub structs with pub named fields, unique legal non-keyword struct names not shadowing String/Option/Vec, unique legal non-keyword field names per struct, field types String or a struct of the same output, every non-first struct used by exactly one field and the first by none. Non-trivial = the pool holds names that collide after normalisation, a concatenation clash, or a keyword/std/trap name, and the output has three or more structs; distinct by hash of documents and options.".into()
     }
     fn assumptions(&self) -> Vec<String> {
         vec![
